@@ -765,6 +765,12 @@ def get_attr_external(interp, base, name, missing_ok=False):
     if isinstance(base, (K, ListV, DictV, SetV, TupleV, RegexV)):
         if isinstance(base, K) and name == '__traceback__':
             return K(None)
+        if isinstance(base, K) and hasattr(base.v, name) and \
+                not callable(getattr(base.v, name)) and \
+                isinstance(getattr(base.v, name), (int, str, bytes, float,
+                                                   tuple, type(None))):
+            # a data attribute of a constant (uuid.UUID(...).bytes_le)
+            return K(getattr(base.v, name))
         return Method(base, name)
     if isinstance(base, T):
         if base.op == 'exc':
@@ -1574,6 +1580,36 @@ def b_struct_unpack_from(interp, args, kwargs):
     return struct_unpack(interp, fmt, piece)
 
 
+def b_uuid_UUID(interp, args, kwargs):
+    """uuid.UUID(constant): the value object itself (immutable)."""
+    import uuid as _uuid
+    if not _all_k(args, kwargs) or not (args or kwargs):
+        return NotImplemented
+    try:
+        return K(_uuid.UUID(*[a.v for a in args],
+                            **{k: v.v for k, v in kwargs.items()}))
+    except Exception as e:
+        raise py_exc(interp, e)
+
+
+def b_struct_Struct(interp, args, kwargs):
+    """struct.Struct(fmt): a precompiled format with the same unpack model."""
+    fmt = args[0] if args else kwargs.get('format')
+    if not isinstance(fmt, K):
+        return NotImplemented
+    try:
+        size = _struct.calcsize(fmt.v)
+    except _struct.error as e:
+        raise py_exc(interp, e)
+    o = Obj(None, {'format': fmt, 'size': K(size)}, label='Struct')
+    o.fields['unpack'] = AbsFunc('Struct.unpack', lambda i, a, k:
+                                 struct_unpack(i, fmt, a[0]))
+    o.fields['unpack_from'] = AbsFunc(
+        'Struct.unpack_from', lambda i, a, k: b_struct_unpack_from(
+            i, [fmt] + list(a), k))
+    return o
+
+
 def b_struct_calcsize(interp, args, kwargs):
     if isinstance(args[0], K):
         try:
@@ -1827,6 +1863,7 @@ BUILTINS = {
     'contextlib.suppress': b_suppress,
     'struct.unpack': b_struct_unpack, 'struct.calcsize': b_struct_calcsize,
     'struct.unpack_from': b_struct_unpack_from,
+    'struct.Struct': b_struct_Struct, 'uuid.UUID': b_uuid_UUID,
     're.compile': b_re_compile,
     'bin': b_pure('bin'), 'hex': b_pure('hex'), 'ord': b_pure('ord'),
     'chr': b_pure('chr'), 'abs': b_pure('abs'), 'repr': b_pure('repr'),
